@@ -2,7 +2,7 @@
    Theorems over the REGENERATED rule engine P11Attribute::update, the history / trusted updaters and the class
    table.  Statements only. *)
 From Coq Require Import List NArith Bool String.
-From SoftHSM Require Import Gen_Const Gen_Pure Gen_Table AttrFacts.
+From SoftHSM Require Import Gen_Const Gen_Pure Gen_Table AttrFacts Gen_Entry Defs Core EntryModel.
 Import ListNotations.
 Local Open Scope N_scope.
 
@@ -69,3 +69,21 @@ Theorem C08_extractable_effects : forall (v : N) (getb : N -> bool -> bool) (ty 
   (v = 0 /\ w = [(ty, 0)]) \/ (v <> 0 /\ w = [(CKA_NEVER_EXTRACTABLE, 0); (ty, 1)]).
 Proof. exact extractable_effects. Qed.
 Print Assumptions C08_extractable_effects.
+
+Theorem C08_setattr_code_guard : forall (s : state) (h oh : N) (x : session) (rest ptr cnt : N),
+  ptr <> 0 ->
+  C_SetAttributeValue.app (setattr_env s h oh x rest ptr cnt)
+  = match get_object s oh with
+    | None => CKR_OBJECT_HANDLE_INVALID
+    | Some (_, _, ob) =>
+        let rv := have_write (sess_state s x) (o_token ob) (o_private ob) in
+        if negb (rv =? CKR_OK) then rv else if negb (obj_bool ob CKA_MODIFIABLE true) then CKR_ACTION_PROHIBITED else rest
+    end.
+Proof. exact setattr_code_guard. Qed.
+Print Assumptions C08_setattr_code_guard.
+
+Theorem C08_destroy_model_is_code : forall (s : state) (h oh : N) (x : session),
+  st_init s = true -> get_session s h = Some x ->
+  rv_of (snd (step s (ODestroy h oh))) = Some (C_DestroyObject.app (destroy_env s h oh x)).
+Proof. exact destroy_model_is_code. Qed.
+Print Assumptions C08_destroy_model_is_code.
